@@ -16,7 +16,9 @@ func (r Result[T]) IsOk() bool {
 		return true
 	}
 	switch v := reflect.ValueOf(r.Error); v.Kind() {
-	case reflect.Chan, reflect.Func, reflect.Interface, reflect.Map, reflect.Ptr, reflect.Slice, reflect.UnsafePointer:
+	case reflect.Interface, reflect.Ptr:
+		// Only nil pointers count as "no error", exactly as in the executor's isNil: a nil slice, map,
+		// func or chan of an error type is an error like any other value of that type.
 		return v.IsNil()
 	}
 	return false
